@@ -157,6 +157,9 @@ def make_wrap(shadow, glob_variants, inherent=False):
         if glob_variants and t.kind == 'enum' and t.variants:
             extra = f'    #[allow(unused_imports)]\n    use self::{t.name}::*;\n'
         inh = INHERENT.format(name=t.name).replace('panic!(', '::core::panic!(') if inherent and not t.generics else ''
+        if getattr(t, '_import_expr_items', False):
+            # default expressions keep their single-identifier calls (`D(src(3))`); the items are imported by name at the derive site
+            extra += '    #[allow(unused_imports)]\n    use super::{src, D};\n'
         for path, al in getattr(t, '_method_aliases', {}).items():
             src = path
             extra += f'    #[allow(unused_imports)]\n    use {src} as {al};\n'
@@ -169,8 +172,9 @@ def make_wrap(shadow, glob_variants, inherent=False):
     return wrap
 
 
-def make_xf(field_names, variant_names, rot, absolutize=True, exact=False, method_alias=None):
+def make_xf(field_names, variant_names, rot, absolutize=True, exact=False, method_alias=None, import_expr_items=False):
     def xf(t):
+        t._import_expr_items = import_expr_items
         k = 0 if exact else rot
         aliases = {}     # absolute method path -> single-identifier name it is imported under at the derive site
 
@@ -201,7 +205,7 @@ def make_xf(field_names, variant_names, rot, absolutize=True, exact=False, metho
                             p = dict(p)
                             if 'method' in p:
                                 p['method'] = alias(abs_path(p['method']))
-                            if 'expr' in p:
+                            if 'expr' in p and not import_expr_items:
                                 p['expr'] = abs_expr(p['expr'])
                             f.a[tr] = p
                         elif isinstance(p, list):
@@ -211,7 +215,7 @@ def make_xf(field_names, variant_names, rot, absolutize=True, exact=False, metho
             for tr, p in t.traits:
                 p = dict(p)
                 if 'expr' in p:
-                    p['expr'] = abs_expr(p['expr']).replace('Ty {', f'{t.name} {{').replace('Ty::', f'{t.name}::').replace('Ty(', f'{t.name}(')
+                    p['expr'] = (p['expr'] if import_expr_items else abs_expr(p['expr'])).replace('Ty {', f'{t.name} {{').replace('Ty::', f'{t.name}::').replace('Ty(', f'{t.name}(')
                 if tr == 'Into' and 'ty' in p:
                     p['ty'] = abs_ty(p['ty'])
                 nt.append((tr, p))
@@ -365,6 +369,9 @@ def contexts(fields, upper, tier, seed):
     # parameters and locals (`f`, `other`, `state`, `source`, `builder`, `arg`): `method = other` must still call the user's function
     for ident in METHOD_IDENTS:
         ctx.append((f'method-named:{ident}', False, False, None, None, False, False, [ident] + [x for x in METHOD_IDENTS if x != ident]))
+    # fields named like the items the type's own default expressions call (`src(3)` next to a field `src`): an expansion that binds
+    # field values to locals named after the fields would capture them
+    ctx.append(('names-of-expression-items', False, False, ['src', 'D', 'dflt'], None, True, False, None, True))
     # raw identifiers as field names: bindings derived from them (`_r#type` is not an identifier) must still be well-formed
     ctx.append(('raw-identifiers', False, False, ['r#type', 'r#fn', 'r#match', 'r#loop', 'r#_0'], None, True))
     # names closed under the binding patterns of the generated code: a field x next to fields called like the
@@ -395,6 +402,9 @@ def gen(tier, seed):
             exact = len(ctx) > 5 and ctx[5]
             inherent = len(ctx) > 6 and ctx[6]
             malias = ctx[7] if len(ctx) > 7 else None
+            imp = len(ctx) > 8 and ctx[8]
+            if imp and not name.startswith('Default:'):
+                continue
             if tag == 'raw-identifiers' and name.startswith('Debug:'):
                 continue      # default keys of raw identifiers are not defined by the property
             if name.startswith('DebugNoDefaultKey:') and tag not in ('raw-identifiers', 'shadow'):
@@ -402,11 +412,11 @@ def gen(tier, seed):
             if tag.startswith('method-named:'):
                 if not name.startswith(METHOD_IDENT_USERS[tag.split(':')[1]]):
                     continue
-            elif tier == 'quick' and (ti + ci) % 2 == 1 and tag not in ('shadow', 'inherent-methods', 'raw-identifiers'):
+            elif tier == 'quick' and (ti + ci) % 2 == 1 and tag not in ('shadow', 'inherent-methods', 'raw-identifiers', 'names-of-expression-items'):
                 continue
             model.TYPE_WRAP = make_wrap(shadow, glob, inherent)
             try:
-                m = mk(f'm{n:04d}', f'{name} @ {tag}', make_xf(fns, vns, ti * 5 + ci, exact=exact, method_alias=malias))
+                m = mk(f'm{n:04d}', f'{name} @ {tag}', make_xf(fns, vns, ti * 5 + ci, exact=exact, method_alias=malias, import_expr_items=imp))
             finally:
                 model.TYPE_WRAP = None
             if m is None:
